@@ -627,6 +627,14 @@ def r11(F, R):
             continue
         oks = [x[0] for x in agg_blocks(b, "LeapfrogResult", "Ok")]
         upd = [bb for bb, t in b.calls() if path_ends(t["callee"].get("path", ""), "update_kinetic_energy")]
+        # the same written in place: a store into the kinetic_energy field of the new point (by assignment or as the destination of a call)
+        for bi_, blk_ in enumerate(b.blocks):
+            for st_ in blk_["stmts"]:
+                if st_["k"] == "assign" and st_["pl"]["p"] and isinstance(st_["pl"]["p"][-1], dict) and st_["pl"]["p"][-1].get("n") == "kinetic_energy":
+                    upd.append(bi_)
+            t_ = blk_["term"]
+            if t_["k"] == "call" and t_["dest"]["p"] and isinstance(t_["dest"]["p"][-1], dict) and t_["dest"]["p"][-1].get("n") == "kinetic_energy":
+                upd.append(bi_)
         for kind in ("Euclidean", "ExactNormal"):
             key = "%s:kinetic-energy:%s" % (b.path, kind)
             FB = b.reach_feasible(0, oracle=_kind_oracle(b, kind))
